@@ -152,8 +152,10 @@ fn is_allowed_char_after_keyword(ch: char) -> bool {
     ch != '.' && ch != '$' && !ch.is_ascii_alphanumeric()
 }
 
-const MAX_LENGTH: usize = 40;
-
+/// Parses a word that starts with a letter and continues with letters, digits or dots.
+/// The length is not limited here: the tokenizer also reads the contents of string literals,
+/// comments and DATA lines. The limit on the length of names is enforced where a token is
+/// used as a name (see `core::name::identifier`).
 fn identifier() -> impl Parser<StringView, Output = Token, Error = ParserError> {
     read_p()
         .filter(char::is_ascii_alphabetic)
@@ -163,13 +165,6 @@ fn identifier() -> impl Parser<StringView, Output = Token, Error = ParserError> 
                 .zero_or_more(),
             StringCombiner,
         )
-        .and_then(|value| {
-            if value.len() > MAX_LENGTH {
-                Err(ParserError::IdentifierTooLong)
-            } else {
-                Ok(value)
-            }
-        })
         .to_token(TokenType::Identifier)
 }
 
